@@ -51,6 +51,9 @@ var c08fixed = []struct {
 	{"global (ID, TICK)\nTICK()\nx := sort([5, 3, 9, 1])\ny := append([1, 2], 3)\nz := {a: [1, 2]}\nz.a[0] = ID\nw := \"lit\" + ID\nb := bytes(\"abc\")\nb[0] = 'z'\nTICK()\nreturn [x, y, z, w, b, sort([\"b\", \"a\"]), copy(z)]", nil, nil},
 	{"global (ID, TICK)\nTICK()\nvar r\nr = func(n) {\n  if n == 0 {\n    return [1][ID + 5]\n  }\n  TICK()\n  return r(n - 1) + 1\n}\nreturn r(30)", nil, nil},
 	{"global (ID, TICK)\nTICK()\np := import(\"plugins\")\nkey := \"k\" + ID\np.registry[key] = true\np.nested.inner[key] = ID\np.nested.arr[0][key] = ID\np.state.n += ID + 1\np.log[0] += 10\np.buf[0] = 7\np.sync[key] = ID\np.list = append(p.list, ID)\nTICK()\nq := import(\"plugins\")\nreturn [len(q.registry), len(q.nested.inner), len(q.nested.arr[0]), q.state.n == ID + 1, q.log[0], q.buf[0], len(q.sync), len(q.list), q.registry[key], q.nested.inner[key] == ID]", nil, []string{"plugins"}},
+	// execution order of the imports differs from their source order: the first import in the source sits in a function
+	// called later / in a branch never taken, the import that runs first comes later in the source and writes
+	{"global (ID, TICK)\nTICK()\nlate := func() {\n  return import(\"plugins\")\n}\nvar never\nif ID < 0 {\n  never = import(\"strings\")\n}\np := import(\"plugins\")\nkey := \"k\" + ID\np.registry[key] = true\np.nested.inner[key] = ID\np.nested.arr[0][key] = ID\np.state.n += ID + 1\np.log[0] += 10\np.buf[0] = 7\np.list = append(p.list, ID)\ns := import(\"strings\")\ns.Marker = ID\ns.nested = {id: ID}\nTICK()\nq := late()\nreturn [len(q.registry), len(q.nested.inner), len(q.nested.arr[0]), q.state.n == ID + 1, q.log[0], q.buf[0], len(q.list), q.registry[key], import(\"strings\").Marker == ID, import(\"strings\").nested.id == ID, never]", nil, []string{"plugins", "strings"}},
 	{"global (ID, TICK, PANIC)\nTICK()\ntry {\n  PANIC()\n} catch e {\n  TICK()\n  return sprintf(\"%v\", e.Message)\n}", nil, nil},
 }
 
